@@ -33,7 +33,7 @@ structure V0Plan where
   clusterOf : List Nat
   /-- code bits per cluster (0 = single-symbol alphabet) -/
   kOf : List Nat
-  deriving Repr
+  deriving Repr, Inhabited
 
 def numClusters (clusterOf : List Nat) : Nat := (clusterOf.foldl max 0) + 1
 
